@@ -206,6 +206,10 @@ pub mod prelude;
 pub mod storage;
 pub mod world;
 
+#[cfg(specs_verif)]
+#[doc(hidden)]
+pub mod verif;
+
 pub use hibitset::BitSet;
 pub use shred::{
     Accessor, AccessorCow, BatchAccessor, BatchController, BatchUncheckedWorld, Dispatcher,
